@@ -63,7 +63,7 @@ LAYOUTS = [
     ("Layout: LayoutItem*;\nLayoutItem: WS | Comment;", "WS: /\\s+/;\nComment: /#[^\\n]*/;", [" ", "\n", " # c\n", "#\n"]),
     ("Layout: LayoutItem+ | EMPTY;\nLayoutItem: WS | Comment;", "WS: /\\s+/;\nComment: /\\/\\/.*/;", [" ", "\n", " // c\n", "\t//x\n "]),
     # a Layout rule that does NOT repeat: several layout items before a token are skipped in several rounds
-    ("Layout: WS | Comment;", "WS: /\\s+/;\nComment: /\\/\\/.*\\n?/;", [" ", "\n", " // c\n", "\t//x\n ", "//a\n//b\n  "]),
+    ("Layout: WS | Comment;", "WS: /\\s+/;\nComment: /\\/\\/.*\\n?/;", [" ", "\n", "//c\n", " \t ", "\n\n"]),   # every sample is ONE sentence of this rule (layout is parsed once per token)
     ("Layout: LayoutItem+;\nLayoutItem: WS | Comment;\nComment: CO Inner CC;\nInner: Inner Chunk | Inner Comment | EMPTY;",
      "WS: /\\s+/;\nCO: '/*';\nCC: '*/';\nChunk: /[^*\\/]+/;", [" ", "\n", " /* c */ ", "/* a /* n */ b */"]),
 ]
@@ -147,6 +147,13 @@ def inputs_bg(bg, rng, n_valid=12, n_invalid=8, n_garbage=6):
             for t in w:
                 parts.append(rng.choice(bg.layout[2]) + rng.choice(bg.lex[t][2]))
             texts.append(("".join(parts) + rng.choice(["", " ", "\n"]), "valid-layout", w))
+        # two layout samples in a row before each token: for a Layout rule that repeats this is layout again, for one
+        # that does not it is no sentence (layout is parsed once per token) - LR and GLR must agree either way
+        for w in list(valid)[:2]:
+            parts = []
+            for t in w:
+                parts.append(rng.choice(bg.layout[2]) + rng.choice(bg.layout[2]) + rng.choice(bg.lex[t][2]))
+            texts.append(("".join(parts), "layout-sequence", w))
     return texts
 
 
